@@ -164,6 +164,25 @@ def _mentions_opaque(t):
     return False
 
 
+class _Null:
+    """stand-in for opaque collaborators (loggers) in replays: every attribute is itself, every call returns itself"""
+
+    def __getattr__(self, name):
+        return self
+
+    def __call__(self, *a, **k):
+        return self
+
+    def __bool__(self):
+        return True
+
+    def __deepcopy__(self, memo):
+        return self
+
+
+NULL_OBJECT = _Null()
+
+
 class ReplayLock:
     """threading.Lock stand-in for replays (same acquire/release/locked behaviour, but copyable and never blocking:
     a second acquire is recorded as the deadlock it would be)"""
@@ -305,7 +324,9 @@ class Reifier:
             if contains_wild(val):
                 return WILD
             return json.dumps(val, sort_keys=v.sort_keys)
-        if isinstance(v, (Opaque, Foreign, Closure, BoundMethod, BuiltinMethod)):
+        if isinstance(v, Foreign):
+            return NULL_OBJECT           # loggers and the like: accepts every attribute / call
+        if isinstance(v, (Opaque, Closure, BoundMethod, BuiltinMethod)):
             return WILD
         return v
 
@@ -313,6 +334,8 @@ class Reifier:
 def contains_wild(v):
     if v is WILD:
         return True
+    if v is NULL_OBJECT:
+        return False
     if isinstance(v, (list, tuple, set)):
         return any(contains_wild(x) for x in v)
     if isinstance(v, dict):
@@ -322,7 +345,7 @@ def contains_wild(v):
 
 def deep_eq(a, b, path='', memo=None):
     """structural identity of two real values (types included); returns '' or a description of the first difference"""
-    if a is WILD or b is WILD:
+    if a is WILD or b is WILD or a is NULL_OBJECT or b is NULL_OBJECT:
         return ''
     if memo is None:
         memo = set()
@@ -606,6 +629,7 @@ def verify_contract(contract_cls, rlimit=20_000_000, seed=0, crosscheck=True):
                 st['status'] = 'violated'
                 st['reason'] = str(f)
         # ---- clauses
+        path_ok = {}
         for cname, clause in C.ensures.items():
             st = clause_state[cname]
             st['paths'] += 1
@@ -623,6 +647,7 @@ def verify_contract(contract_cls, rlimit=20_000_000, seed=0, crosscheck=True):
                     st['reason'] = str(e)
                 continue
             if f is True:
+                path_ok[cname] = True
                 continue
             neg = z3.BoolVal(True) if f is False else z3.Not(f.t)
             if os.environ.get('PYVC_TRACE'):
@@ -632,6 +657,7 @@ def verify_contract(contract_cls, rlimit=20_000_000, seed=0, crosscheck=True):
             if not ctx.model_ok or shared.cvc5_decided:
                 st['backend'] = 'z3+cvc5'
             if r == z3.unsat:
+                path_ok[cname] = True
                 continue
             if r == z3.unknown:
                 if st['status'] == 'discharged':
@@ -669,7 +695,8 @@ def verify_contract(contract_cls, rlimit=20_000_000, seed=0, crosscheck=True):
         # ---- CPython cross-check of the encoding on this path
         if crosscheck and model_pc is not None:
             try:
-                mism = '' if C.no_crosscheck else crosscheck_path(C, init, args, kwargs, result, exc, model_pc)
+                mism = '' if C.no_crosscheck else crosscheck_path(C, init, args, kwargs, result, exc, model_pc,
+                                                                  proved=[c for c in C.ensures if path_ok.get(c)])
                 out['crosscheck']['compared'] += 0 if C.no_crosscheck else 1
                 if mism:
                     out['crosscheck']['mismatches'].append(f'path {_short(ctx.decisions)}: {mism}')
@@ -838,12 +865,23 @@ def replay(C, init, cname, clause, model, ctx=None):
         return False, dict(note=f'replay crashed: {e!r}', trace=traceback.format_exc()[-600:])
 
 
-def crosscheck_path(C, init, args, kwargs, result, exc, model):
-    """same inputs through CPython: outcome and final state must equal the reified symbolic outcome"""
+def crosscheck_path(C, init, args, kwargs, result, exc, model, proved=()):
+    """same inputs through CPython: outcome and final state must equal the reified symbolic outcome, and every clause that
+    was discharged on this path must also evaluate to true on the real run (guards the specification vocabulary itself)"""
     rargs, rkwargs = reify_inputs(init, model)
     if contains_wild(rargs) or contains_wild(rkwargs):
         return ''
+    rpre = Pre(copy.deepcopy(rargs), copy.deepcopy(rkwargs))
     res, rexc = run_real(C, rargs, rkwargs)
+    rpost = Post(rargs, rkwargs, res, rexc)
+    for cname in proved:
+        try:
+            ok = C.ensures[cname](rpre, rpost)
+        except Exception as e:   # noqa
+            return f'clause {cname} cannot be evaluated on the real run: {e!r}'
+        if not ok:
+            return (f'clause {cname} was discharged symbolically but is FALSE on the real run for '
+                    f'{_describe([rpre.args, rpre.kwargs])!r:.400}')
     R = Reifier(model)
     sym_res = R(result)
     sym_args = R(list(args))
@@ -854,9 +892,13 @@ def crosscheck_path(C, init, args, kwargs, result, exc, model):
         if exc.cls is not type(rexc) and not getattr(exc.cls, '_pyvc_any_exception', False):
             return f'exception class {exc.cls.__name__} vs {type(rexc).__name__} on {_describe(reify_inputs(init, model))!r:.300}'
         return ''
+    if hasattr(C, 'canon'):
+        sym_res, res = C.canon(sym_res), C.canon(res)
     d = deep_eq(sym_res, res, 'result')
     if d:
         return d + f' on {_describe(reify_inputs(init, model))!r:.300}'
+    if getattr(C, 'crosscheck_result_only', False):
+        return ''
     d = deep_eq(sym_args, rargs, 'args')
     if d:
         return d + f' (final state) on {_describe(reify_inputs(init, model))!r:.300}'
